@@ -29,3 +29,5 @@ import LexVerif.Model.Ops.WriteAlgos
 -- string→float algorithm models (fast path, Eisel–Lemire, Bellerophon, power-of-two) and their op handlers
 import LexVerif.Model.Ops.ParseAlgos
 import LexVerif.Model.WriteRadixInt
+-- API-level pipeline model (fast path → moderate path → slow path) and its op handler `apf`
+import LexVerif.Model.Ops.ParseFloatAlgo
